@@ -29,19 +29,23 @@ pub enum Case {
         kind: ObKind,
         path: String,
     },
+    /// Observational only (never a violation): a hard I/O error (EACCES on open/mkdir, ENOSPC
+    /// on write with a partial write, EIO on fsync) at the `at`-th data-path call of the
+    /// single-threaded history `base`; every failed call is repeated afterwards
+    HardIo { base: Plan, at: u64 },
 }
 
 impl Case {
     pub fn plan(&self) -> &Plan {
         match self {
             Case::Plain { plan } => plan,
-            Case::Faulted { base, .. } => base,
+            Case::Faulted { base, .. } | Case::HardIo { base, .. } => base,
         }
     }
     pub fn plan_mut(&mut self) -> &mut Plan {
         match self {
             Case::Plain { plan } => plan,
-            Case::Faulted { base, .. } => base,
+            Case::Faulted { base, .. } | Case::HardIo { base, .. } => base,
         }
     }
 }
@@ -204,7 +208,15 @@ pub fn check_plain(prop: &str, plan: &Plan) -> Outcome {
     vs.extend(oracle::check_strings(plan, &model, &e));
     vs.extend(oracle::check_c11(plan, &model, &e));
     // import / layout oracles on the files written by the last process
-    let last_written = e.written.last().cloned().unwrap_or_default();
+    // files of the last simulated process: those it opened for writing plus those the model
+    // says it exported to (an implementation may legitimately skip rewriting identical bytes)
+    let mut last_written = e.written.last().cloned().unwrap_or_default();
+    let first_of_last = (0..plan.phases.len()).rev().find(|p| plan.phases[*p].fresh_process).unwrap_or(0);
+    for c in e.calls.iter().filter(|c| c.phase >= first_of_last && c.result.is_ok()) {
+        if let Ok(adds) = oracle::op_adds(&model, &c.op) {
+            last_written.extend(adds.into_iter().map(|a| a.0));
+        }
+    }
     let closed = !plan
         .phases
         .last()
@@ -320,9 +332,7 @@ pub fn check_plain(prop: &str, plan: &Plan) -> Outcome {
 fn done_before(model: &Model, ops: &[Op]) -> BTreeSet<(String, String)> {
     let mut done = BTreeSet::new();
     for op in ops {
-        if let Ok(a) = oracle::op_adds(model, op) {
-            done.extend(a.into_iter().map(|x| (x.0, x.1)));
-        }
+        done.extend(oracle::op_may_add(model, op));
     }
     done
 }
@@ -574,7 +584,13 @@ pub fn check_c17_base(plan: &Plan) -> Outcome {
     out
 }
 
+/// Bumped once per checked case; a watchdog in the worker process turns a stalled simulation
+/// (e.g. code under test blocking on a lock the scheduler does not know about) into a harness
+/// error instead of a hang. It never influences a run.
+pub static PROGRESS: std::sync::atomic::AtomicU64 = std::sync::atomic::AtomicU64::new(0);
+
 pub fn check_case(prop: &str, case: &Case) -> Outcome {
+    PROGRESS.fetch_add(1, std::sync::atomic::Ordering::Relaxed);
     match case {
         Case::Plain { plan } => {
             if prop == "C17" {
@@ -590,7 +606,62 @@ pub fn check_case(prop: &str, case: &Case) -> Outcome {
             kind,
             path,
         } => check_faulted(base, *thread, *idx, *kind, path),
+        Case::HardIo { base, at } => observe_hard_io(base, *at),
     }
+}
+
+/// Number of data-path calls (mkdir / open / write / fsync) of an execution.
+pub fn data_calls(e: &Exec) -> u64 {
+    e.log
+        .iter()
+        .filter(|l| matches!(l.op, crate::exec::FsOp::Mkdir | crate::exec::FsOp::OpenRw | crate::exec::FsOp::OpenTrunc | crate::exec::FsOp::OpenOther | crate::exec::FsOp::Write | crate::exec::FsOp::Fsync))
+        .count() as u64
+}
+
+/// X-hard-io: tallies only. C17's statement enumerates its obstacles and a hard I/O error in the
+/// middle of an in-place rewrite is not among them, so nothing here can fail the check.
+fn observe_hard_io(base: &Plan, at: u64) -> Outcome {
+    let mut out = Outcome::default();
+    let reference = execute(base, ExecOpts { snapshots: false, no_invariants: true, no_render: true });
+    absorb(&mut out, &reference);
+    let mut p = base.clone();
+    p.cfg.faults.hard_io_at = Some(at);
+    for ph in &mut p.phases {
+        ph.retry_failed = true;
+    }
+    let e = execute(&p, ExecOpts { snapshots: false, no_invariants: true, no_render: true });
+    absorb(&mut out, &e);
+    out.log_hash = log_hash(&e);
+    let mut tally = |k: &str| *out.probes.entry(format!("observed_hard_io:{k}")).or_insert(0) += 1;
+    let fired = e.fired.keys().any(|k| k.starts_with("hard_io:"));
+    if !fired {
+        tally("fault_not_reached");
+        return out;
+    }
+    let first = e.calls.iter().filter(|c| !c.retry).find(|c| !c.result.is_ok());
+    match first.map(|c| &c.result) {
+        Some(CallResult::Err { .. }) => tally("call_returned_error"),
+        Some(CallResult::Panic { .. }) => tally("call_panicked"),
+        _ => tally("error_swallowed_call_returned_ok"),
+    }
+    if e.calls.iter().any(|c| !c.retry && c.result.is_panic()) && e.calls.iter().filter(|c| !c.retry && c.result.is_panic()).count() > 1 {
+        tally("later_calls_panicked_too");
+    }
+    // a retry counts as failed only if the same call succeeds in the fault-free execution
+    let ok_in_reference = |c: &crate::exec::CallRecord| reference.calls.iter().any(|r| r.list == c.list && r.idx == c.idx && r.result.is_ok());
+    if e.calls.iter().any(|c| c.retry && !c.result.is_ok() && ok_in_reference(c)) {
+        tally("retry_failed");
+    }
+    if e.calls.iter().any(|c| c.retry && c.result.is_panic()) {
+        tally("retry_panicked");
+    }
+    if e.final_files == reference.final_files {
+        tally("recovered_after_retry");
+    } else {
+        tally("tree_differs_after_retry");
+    }
+    out.nontrivial = false;
+    out
 }
 
 /// Expand one seed into the cases of a property.
@@ -615,6 +686,13 @@ pub fn cases_for(prop: &str, seed: u64) -> Vec<Case> {
                             path,
                         });
                     }
+                }
+            }
+            // observational hard I/O errors on a tenth of the single-threaded histories
+            if base.phases[0].threads.len() == 1 && seed % 10 == 0 {
+                let n = data_calls(&execute(&base, ExecOpts { snapshots: false, no_invariants: true, no_render: true }));
+                for at in 1..=n.min(60) {
+                    cases.push(Case::HardIo { base: base.clone(), at });
                 }
             }
             cases
